@@ -29,7 +29,9 @@ NEG_MUST = {"Inv_NoForeignHash": "Buggy_PickleCarriesHash",
 NEG2_CFG = "C17_Gen_neg_all2"
 NEG2_MUST = {"Inv_EqIsPyEq": "Buggy_SetstateByPosition",
              "Inv_CompiledComputes": "Buggy_ArgsBySetOrder",
-             "Inv_DigestIsStructural": "Buggy_DigestSkipsShared"}
+             "Inv_DigestIsStructural": "Buggy_DigestSkipsShared",
+             # round 5: a compiled expression listing objects of a leaf subclass, pickled by name
+             "Inv_NothingRaised": "Buggy_VarsByName"}
 # (C17_Gen_neg_<switch>.cfg run one switch at a time; C17_Gen_cat.cfg is the same
 # small space with all switches off and must be clean)
 
@@ -341,7 +343,8 @@ def run(tier, seed, out):
                 "schedule; non-trivial = a pickle is unpickled in another process; distinct by "
                 "canonical JSON of (instantiation, history).  Catalogue entries come in building "
                 "modes (tree / DAG with shared subexpression objects / parsed from text / defaults "
-                "omitted / numpy constants) that are the same structure")
+                "omitted / numpy constants) that are the same structure; compiled expressions list their "
+                "leading variables by name / as Variable objects / as the leaf-subclass objects of the expression")
     out.exhaustive = True
     out.extra["exhaustive_schedules"] = exhaustive_cases
     out.extra["catalogue_entries"] = len(head["cat"])
